@@ -15,7 +15,7 @@ IDS="$*"
 [ -z "$IDS" ] && IDS=$(python3 -c "import json;print(' '.join(c['property_id'] for c in json.load(open('/verif/MANIFEST.json'))['checks']))")
 export GOFLAGS=-mod=mod GOPROXY=off GOSUMDB=off GOTOOLCHAIN=local GOWORK=off
 for id in $IDS; do
-  out=$(/verif/bin/gsverif -property $id -tier quick -repo "$WT" -verif "$VD" 2>&1); code=$?
+  out=$(${GSVERIF_BIN:-/verif/bin/gsverif} -property $id -tier quick -repo "$WT" -verif "$VD" 2>&1); code=$?
   echo "== $id exit=$code"
   echo "$out" | grep -E "^(violated|undecided|CHECKER)" | cut -c1-400 | head -5
 done
